@@ -356,3 +356,13 @@ package profile
 //@   requires distinct: forall a int, b int :: 0 <= a && a < b && b < len(p.Location) ==> p.Location[a] != p.Location[b]
 //@   ensures untouched: old(p.DropFrames) == "" ==> result == nil
 //@   ensures count: len(p.Sample) == old(len(p.Sample))
+
+// ---- labels ----
+//@ spec func haslabel(s *Sample, key string, value string) bool = exists i int :: 0 <= i && i < len(s.Label[key]) && s.Label[key][i] == value
+//@ func Sample.HasLabel
+//@   requires s != nil
+//@   ensures result <==> haslabel(s, key, value)
+//@   loop 1
+//@     invariant 0 <= $i && $i <= len(s.Label[key])
+//@     invariant forall j int :: 0 <= j && j < $i ==> s.Label[key][j] != value
+//@ func Sample.DiffBaseSample inline
